@@ -996,6 +996,74 @@ func checkC19(w *World) {
 		w.undecided(P, "R19.1", "scalar conversion", um.Pos(), "no function with a reflect.Kind parameter reachable from Unmarshal")
 	} else {
 		covered := map[int64]bool{}
+		checkRet := func(k int64, ret *ssa.Return) {
+			if len(ret.Results) < 1 {
+				return
+			}
+			c, ok := ret.Results[0].(*ssa.Call)
+			if !ok || staticCallee(c) == nil || funcFullName(staticCallee(c)) != "reflect.ValueOf" {
+				w.check(P, "R19.1", "conversion for kind "+reflectKindNames[k], ret.Pos(), false, "arm does not return reflect.ValueOf(...)")
+				return
+			}
+			mi, ok := c.Call.Args[0].(*ssa.MakeInterface)
+			if !ok {
+				return
+			}
+			bt, ok := mi.X.Type().Underlying().(*types.Basic)
+			got := int64(-1)
+			if ok {
+				got = reflectKindOfBasic[bt.Kind()]
+			}
+			// source method
+			src := ""
+			backSlice(mi.X, func(v ssa.Value) bool {
+				if cc, ok := v.(*ssa.Call); ok && cc.Call.IsInvoke() {
+					src = cc.Call.Method.Name()
+					return false
+				}
+				return true
+			})
+			wantSrc := "Number"
+			if k == 24 {
+				wantSrc = "String"
+			} else if k == 1 {
+				wantSrc = "Bool"
+			}
+			covered[k] = true
+			// exactly one conversion from the source value (no intermediate narrower type)
+			nConv := 0
+			var via []string
+			cur := mi.X
+			for {
+				cv, isCv := cur.(*ssa.Convert)
+				if !isCv {
+					break
+				}
+				nConv++
+				via = append(via, cv.Type().String())
+				cur = cv.X
+			}
+			if nConv > 1 {
+				// an intermediate type narrower than the final one truncates
+				narrow := false
+				sizes := types.SizesFor("gc", "amd64")
+				final := sizes.Sizeof(mi.X.Type())
+				cur2 := mi.X.(*ssa.Convert).X
+				for {
+					cv, isCv := cur2.(*ssa.Convert)
+					if !isCv {
+						break
+					}
+					if sizes.Sizeof(cv.Type()) < final {
+						narrow = true
+					}
+					cur2 = cv.X
+				}
+				w.check(P, "R19.1", "conversion chain for kind "+reflectKindNames[k], ret.Pos(), !narrow, fmt.Sprintf("the number passes through %v; an intermediate type narrower than the field type (truncates values the field could hold): %v", via, narrow))
+			}
+			w.check(P, "R19.1", "conversion for kind "+reflectKindNames[k], ret.Pos(), got == k && src == wantSrc, fmt.Sprintf("case reflect.%s returns a %s built from %s(); required kind %s from %s()", reflectKindNames[k], mi.X.Type().String(), src, reflectKindNames[k], wantSrc))
+		}
+		// switch form: one arm per kind
 		allInstrs(conv, func(in ssa.Instruction) {
 			ifi, ok := in.(*ssa.If)
 			if !ok {
@@ -1011,72 +1079,50 @@ func checkC19(w *World) {
 			}
 			body := ifi.Block().Succs[0]
 			for _, in2 := range body.Instrs {
-				ret, ok := in2.(*ssa.Return)
-				if !ok || len(ret.Results) < 1 {
-					continue
+				if ret, ok := in2.(*ssa.Return); ok {
+					checkRet(k, ret)
 				}
-				c, ok := ret.Results[0].(*ssa.Call)
-				if !ok || staticCallee(c) == nil || funcFullName(staticCallee(c)) != "reflect.ValueOf" {
-					w.check(P, "R19.1", "conversion for kind "+reflectKindNames[k], ret.Pos(), false, "arm does not return reflect.ValueOf(...)")
-					continue
-				}
-				mi, ok := c.Call.Args[0].(*ssa.MakeInterface)
+			}
+		})
+		// table form: a package-level map from reflect.Kind to conversion functions, looked up with the kind
+		allInstrs(conv, func(in ssa.Instruction) {
+			lk, ok := in.(*ssa.Lookup)
+			if !ok {
+				return
+			}
+			ld, ok := lk.X.(*ssa.UnOp)
+			if !ok {
+				return
+			}
+			g, ok := ld.X.(*ssa.Global)
+			if !ok {
+				return
+			}
+			entries, ok := w.globalMapLiteral(g)
+			if !ok {
+				w.undecided(P, "R19.1", "conversion table "+g.Name(), lk.Pos(), "the table is not a map literal that is never updated")
+				return
+			}
+			for _, e := range entries {
+				k, ok := constInt(e.Key)
 				if !ok {
 					continue
 				}
-				bt, ok := mi.X.Type().Underlying().(*types.Basic)
-				got := int64(-1)
-				if ok {
-					got = reflectKindOfBasic[bt.Kind()]
+				var fn *ssa.Function
+				switch v := stripConv(e.Val).(type) {
+				case *ssa.Function:
+					fn = v
+				case *ssa.MakeClosure:
+					fn, _ = v.Fn.(*ssa.Function)
 				}
-				// source method
-				src := ""
-				backSlice(mi.X, func(v ssa.Value) bool {
-					if cc, ok := v.(*ssa.Call); ok && cc.Call.IsInvoke() {
-						src = cc.Call.Method.Name()
-						return false
+				if fn == nil {
+					continue
+				}
+				allInstrs(fn, func(in2 ssa.Instruction) {
+					if ret, ok := in2.(*ssa.Return); ok {
+						checkRet(k, ret)
 					}
-					return true
 				})
-				wantSrc := "Number"
-				if k == 24 {
-					wantSrc = "String"
-				} else if k == 1 {
-					wantSrc = "Bool"
-				}
-				covered[k] = true
-				// exactly one conversion from the source value (no intermediate narrower type)
-				nConv := 0
-				var via []string
-				cur := mi.X
-				for {
-					cv, isCv := cur.(*ssa.Convert)
-					if !isCv {
-						break
-					}
-					nConv++
-					via = append(via, cv.Type().String())
-					cur = cv.X
-				}
-				if nConv > 1 {
-					// an intermediate type narrower than the final one truncates
-					narrow := false
-					sizes := types.SizesFor("gc", "amd64")
-					final := sizes.Sizeof(mi.X.Type())
-					cur2 := mi.X.(*ssa.Convert).X
-					for {
-						cv, isCv := cur2.(*ssa.Convert)
-						if !isCv {
-							break
-						}
-						if sizes.Sizeof(cv.Type()) < final {
-							narrow = true
-						}
-						cur2 = cv.X
-					}
-					w.check(P, "R19.1", "conversion chain for kind "+reflectKindNames[k], ret.Pos(), !narrow, fmt.Sprintf("the number passes through %v; an intermediate type narrower than the field type (truncates values the field could hold): %v", via, narrow))
-				}
-				w.check(P, "R19.1", "conversion for kind "+reflectKindNames[k], ret.Pos(), got == k && src == wantSrc, fmt.Sprintf("case reflect.%s returns a %s built from %s(); required kind %s from %s()", reflectKindNames[k], mi.X.Type().String(), src, reflectKindNames[k], wantSrc))
 			}
 		})
 		for k, name := range reflectKindNames {
@@ -1203,21 +1249,47 @@ func checkC19(w *World) {
 				return
 			}
 			n3++
-			guarded := false
-			for _, a := range guardAtoms(c.Block()) {
-				if bo, ok := a.V.(*ssa.BinOp); ok && bo.X == tag {
-					if s, isS := constString(bo.Y); isS && s == "" && ((bo.Op == token.EQL && !a.Pol) || (bo.Op == token.NEQ && a.Pol)) {
-						guarded = true
+			// guarded here, or at every call of this function (the per-field work may live in a helper that the
+			// loop calls only for tagged fields)
+			var tagGuarded func(b *ssa.BasicBlock, depth int) bool
+			tagGuarded = func(b *ssa.BasicBlock, depth int) bool {
+				for _, a := range guardAtoms(b) {
+					if bo, ok := a.V.(*ssa.BinOp); ok {
+						if tc, isCall := bo.X.(*ssa.Call); isCall && staticCallee(tc) != nil && funcFullName(staticCallee(tc)) == "(reflect.StructTag).Get" {
+							if k, isK := constString(tc.Call.Args[1]); !isK || k != "xsel" {
+								continue
+							}
+							if s, isS := constString(bo.Y); isS && s == "" && ((bo.Op == token.EQL && !a.Pol) || (bo.Op == token.NEQ && a.Pol)) {
+								return true
+							}
+						}
 					}
 				}
+				if depth >= 3 {
+					return false
+				}
+				fn := b.Parent()
+				sites, ok := 0, true
+				for g2 := range closure {
+					allInstrs(g2, func(in2 ssa.Instruction) {
+						if c2, isCall := in2.(*ssa.Call); isCall && staticCallee(c2) == fn {
+							sites++
+							if !tagGuarded(c2.Block(), depth+1) {
+								ok = false
+							}
+						}
+					})
+				}
+				return sites > 0 && ok
 			}
+			guarded := tagGuarded(c.Block(), 0)
 			w.check(P, "R19.3", "field assignment in "+g.Name()+" via "+sc.Name(), c.Pos(), guarded, fmt.Sprintf("reached only when the field's xsel tag is non-empty: %v", guarded))
 		})
 	}
 	if n3 == 0 {
 		w.undecided(P, "R19.3", "field assignments", um.Pos(), "no field assignment found in the struct walk")
 	}
-	w.floor(P, "R19.3", 2)
+	w.floorSites(P, "R19.3", 2)
 
 	// R19.4 slice fill order and pointer wrapping
 	for g := range closure {
